@@ -507,6 +507,75 @@ func C05(r *h.Run) {
 		}
 	}
 	c05UnaryVectors(r, rng.Fork("unary-vectors"))
+	c05SentinelError(r)
+}
+
+// c05SentinelError: one *connect.Error VALUE (a package-level sentinel, possibly wrapped) ends
+// several calls in turn, each with trailers of its own: each response carries the metadata the
+// application supplied for THAT call — nothing left over from earlier calls.
+func c05SentinelError(r *h.Run) {
+	for _, proto := range []string{"connect", "grpc", "grpcweb"} {
+		for _, wrapped := range []bool{false, true} {
+			sentinel := connect.NewError(connect.CodeNotFound, errors.New("no such thing"))
+			call := 0
+			handler := connect.NewServerStreamHandler("/verif.Svc/M", func(_ context.Context, _ *connect.Request[h.Raw], s *connect.ServerStream[h.Raw]) error {
+				call++
+				s.ResponseTrailer().Set("X-Request-Id", fmt.Sprint("call-", call))
+				_ = s.Send(&h.Raw{B: []byte("m")})
+				if wrapped {
+					return fmt.Errorf("lookup: %w", sentinel)
+				}
+				return sentinel
+			}, connect.WithCodec(h.ToyCodec{}))
+			cfg := envCfg{Proto: proto}
+			for k := 1; k <= 3; k++ {
+				req := httptest.NewRequest(http.MethodPost, "/verif.Svc/M", bytes.NewReader(h.Frame(0, []byte("q"))))
+				req.ProtoMajor, req.ProtoMinor = 2, 0
+				req.Header.Set("Content-Type", cfg.contentType(false))
+				rec := httptest.NewRecorder()
+				p := safely(func() { handler.ServeHTTP(rec, req) })
+				in := map[string]any{"proto": proto, "handler": "server stream: sets trailer X-Request-Id: call-<k>, sends one message, returns the SAME *connect.Error value every time", "wrapped_with_%w": wrapped, "call": k}
+				r.Eval("sentinel_error", fmt.Sprint(proto, wrapped, k))
+				if p != nil {
+					r.Fail(h.Failure{Key: "conformance/panic", Family: "sentinel_error", What: fmt.Sprint("panic: ", p), Input: in})
+					break
+				}
+				// all values of X-Request-Id anywhere in what the peer receives
+				var ids []string
+				hdr, trailer := splitTrailers(rec)
+				ids = append(ids, hdr.Values("X-Request-Id")...)
+				ids = append(ids, trailer.Values("X-Request-Id")...)
+				raw := rec.Body.Bytes()
+				for rest := raw; len(rest) >= 5; {
+					n := int(rest[1])<<24 | int(rest[2])<<16 | int(rest[3])<<8 | int(rest[4])
+					if n < 0 || len(rest)-5 < n {
+						break
+					}
+					if rest[0]&0x82 != 0 { // Connect end-of-stream / gRPC-Web trailer block
+						text := string(toyInflate("", rest[0], rest[5:5+n]))
+						for i := 0; ; {
+							j := strings.Index(text[i:], "call-")
+							if j < 0 {
+								break
+							}
+							e := i + j + 5
+							for e < len(text) && text[e] >= '0' && text[e] <= '9' {
+								e++
+							}
+							ids = append(ids, text[i+j:e])
+							i = e
+						}
+					}
+					rest = rest[5+n:]
+				}
+				want := fmt.Sprint("call-", k)
+				r.Sample("sentinel_error", map[string]any{"in": in, "request_ids_received": ids})
+				if len(ids) != 1 || ids[0] != want {
+					r.Fail(h.Failure{Key: "conformance/metadata-of-another-call", Family: "sentinel_error", What: "the response carries metadata the application did not supply for this call (trailers of earlier calls that ended with the same error value)", Input: in, Expected: []string{want}, Actual: ids})
+				}
+			}
+		}
+	}
 }
 
 // c05UnaryVectors: unary Connect responses as a conformant peer writes them — the message (or
